@@ -51,7 +51,10 @@ use futures::stream::{Stream};
 use futures::task;
 use futures::task::{Poll, Context};
 
+#[cfg(not(feature = "verif-hooks"))]
 use std::sync::*;
+#[cfg(feature = "verif-hooks")]
+use crate::verif::sync::*;
 use std::pin::{Pin};
 use std::collections::VecDeque;
 
